@@ -249,7 +249,9 @@ theorem arrEq_refl_aux : ∀ xs : List Json, (∀ x ∈ xs, Spec.jsonEq x x = tr
       exact ⟨h x List.mem_cons_self,
         arrEq_refl_aux xs (fun y hy => h y (List.mem_cons_of_mem _ hy))⟩
 
-theorem numBeq_refl (x : Num) : x.beq x = true := by simp [Num.beq]
+theorem numBeq_refl (x : Num) : x.beq x = true := by
+  simp only [Num.beq]
+  split <;> simp
 
 theorem specJsonEq_refl (a : Json) (ha : a.WF) : Spec.jsonEq a a = true := by
   induction a using jsonInd with
@@ -272,9 +274,15 @@ theorem specJsonEq_refl (a : Json) (ha : a.WF) : Spec.jsonEq a a = true := by
 
 theorem numBeq_symm (x y : Num) : x.beq y = y.beq x := by
   simp only [Num.beq]
-  rw [Bool.eq_iff_iff]
-  simp only [beq_iff_eq]
-  exact eq_comm
+  by_cases h : x.d = 0 ∧ y.d = 0
+  · have h' : y.d = 0 ∧ x.d = 0 := ⟨h.2, h.1⟩
+    rw [if_pos h, if_pos h', Bool.eq_iff_iff]
+    simp only [beq_iff_eq]
+    exact eq_comm
+  · have h' : ¬ (y.d = 0 ∧ x.d = 0) := fun hh => h ⟨hh.2, hh.1⟩
+    rw [if_neg h, if_neg h', Bool.eq_iff_iff]
+    simp only [beq_iff_eq]
+    exact eq_comm
 
 theorem arrEq_symm_aux : ∀ (xs ys : List Json),
     (∀ x ∈ xs, ∀ y, y.WF → Spec.jsonEq x y = Spec.jsonEq y x) → Json.WFArr ys →
